@@ -135,6 +135,8 @@ def _parents(ctx, names, col_of, site):
             continue
         w.isotope(strip(r[col_of["symbol"]]), a_)
         nrow += 1
+    if nrow < 400:
+        raise AnalysisError(f"activation.dat: only {nrow} data rows could be located through the documented column names symbol / A")
     I.builtins["open"] = Builtin("open", lambda *a, **k: TextFile([l_ + "\n" for l_ in lines], "activation.dat"))
     I.stubs["core.get_data_path"] = lambda I_, a, k: "/data"
     try:
